@@ -264,7 +264,7 @@ fn gen_member_val(rng: &mut Rng, depth: usize) -> Val {
     }
 }
 
-fn gen_history(rng: &mut Rng, tier: Tier) -> History {
+pub fn gen_history(rng: &mut Rng, tier: Tier) -> History {
     let nvals = 3 + rng.below(10) as u32;
     let max_revs = if tier == Tier::Quick { 4 } else { 8 };
     let n_revs = 1 + rng.usize(max_revs);
